@@ -413,6 +413,39 @@ def run_matcher_rules(ck, repo, thorough=False):
     inner = [n for n in ast.walk(gm.node) if isinstance(n, ast.Call) and src(n.func) == '_cython_get_mapping']
     ck.decide(len(inner) == 1 and [src(x) for x in inner[0].args[:2]] == ['query', 'other._cython_compiled_structure'], R, 'compiled-call',
               [src(x) for x in inner[0].args] if inner else None, 'compiled matcher no longer receives (query buffer, molecule buffer, scope)', file=gm.file)
+    # the per-call restriction (`scope` = atoms of the molecule component under search) reaches the compiled matcher
+    adapters = [n for n in ast.walk(gm.node) if isinstance(n, (ast.FunctionDef, ast.Lambda)) and n is not gm.node and
+                any(isinstance(c, ast.Call) and src(c.func) == '_cython_get_mapping' for c in ast.walk(n))]
+    if len(adapters) == 1 and inner and len(inner[0].args) >= 3:
+        ad = adapters[0]
+        params = [a.arg for a in ad.args.args]
+        local = {}
+        for n in ast.walk(ad):
+            if isinstance(n, ast.Assign) and len(n.targets) == 1 and isinstance(n.targets[0], ast.Name):
+                local.setdefault(n.targets[0].id, []).append(n.value)
+        deps, todo = set(), [inner[0].args[2]]
+        while todo:
+            e = todo.pop()
+            for n in ast.walk(e):
+                if isinstance(n, ast.Name) and n.id not in deps:
+                    deps.add(n.id)
+                    todo.extend(local.get(n.id, ()))
+        ck.decide(len(params) == 2 and params[1] in deps and params[0] in {x.id for x in ast.walk(inner[0].args[0]) if isinstance(x, ast.Name)},
+                  R, 'compiled-scope', f'scope argument depends on adapter parameter `{params[1] if len(params) > 1 else None}`',
+                  f'the compiled adapter {params} builds its scope array from {sorted(deps)}: the per-call `scope` (molecule component being searched) '
+                  f'no longer restricts the compiled matcher, while the reference matcher tests `n in scope`', file=gm.file, line=ad.lineno,
+                  func='QueryIsomorphism.get_mapping', construct=src(inner[0])[:160])
+    else:
+        ck.bad(R, 'compiled-scope', 'adapter around the compiled matcher not found in the expected (query, scope) -> _cython_get_mapping(query, structure, scope-array) form', file=gm.file)
+    # ... and the reference matcher tests the same restriction at both admission sites
+    ref = repo.func(f'{ISO}:_get_mapping')
+    tests = [n for n in ast.walk(ref.node) if isinstance(n, ast.Compare) and len(n.ops) == 1 and isinstance(n.ops[0], ast.In) and src(n.comparators[0]) == 'scope']
+    ck.decide(len(tests) >= 2, R, 'reference-scope', len(tests), f'reference matcher tests `in scope` at {len(tests)} admission sites (2 expected: seeds and extensions)', file=ref.file, line=ref.lineno)
+    # the driver hands every back-end the component-restricted candidate set
+    drv0 = repo.func(f'{ISO}:Isomorphism._get_mapping')
+    gcalls = [n for n in ast.walk(drv0.node) if isinstance(n, ast.Call) and src(n.func) == 'get_mapping']
+    ck.decide(len(gcalls) >= 2 and all(any(k.arg == 'scope' and src(k.value) == 'candidate' for k in c.keywords) or (len(c.args) > 1 and src(c.args[1]) == 'candidate') for c in gcalls),
+              R, 'driver-scope', len(gcalls), 'the shared driver no longer passes scope=candidate to every matcher call', file=drv0.file, line=drv0.lineno)
     drv = repo.func(f'{ISO}:Isomorphism._get_mapping')
     d = src(drv.node)
     ck.decide('if components is None' in d and 'partial(_get_mapping, query_closures=closures, o_atoms=other._atoms, o_bonds=other._bonds)' in d,
